@@ -566,6 +566,8 @@ def first(F, R):
 
 
 PAYLOAD_CTORS = ('tuple', 'command::ValueChangeCommand::ValueChangeCommand', 'std::convert::Into::into',
+                 '<T as std::convert::Into<U>>::into',    # the blanket impl, for an argument of a concrete type
+
                  'sound::IntoOptionalRegion::into_optional_region', 'value::Value::<T>::to_')
 
 
@@ -588,6 +590,8 @@ def payload_verbatim(F, R, rule='B.C07.payload', fn_filter=None, floor=60):
         nm, args = parse_term(d)
         if args is None:
             return d in params or d in ('True', 'False', 'tuple()', '()') or d.startswith(('const ', 'promoted[')) or d in units
+        if not args and nm.endswith(('::default', '::new')):
+            return True     # a constructor of nothing (`Tween::default()`): a constant
         return nm in PAYLOAD_CTORS and all(ok_term(a, params) for a in args)
     for b in F.bodies:
         if b.krate != 'kira' or 'andle' not in b.path or (fn_filter is not None and not fn_filter(b.path)):
